@@ -14,7 +14,7 @@ CFG = {
             "tighter load factors, and pairs with maxLF < 2*minLF (e.g. chain 4/6, open addressing 1/4 - 3/8, 3/8 - 1/2) for which the table rebuilt by a "
             "shrink grows again while entries are re-inserted (nested resize; inside the theorems' domain since the generic re-insertion lemmas)}. exhaustive: every history over {Put k, Delete k, DeleteAll} on 3 keys up to the length bound, from "
             "an empty table and from a table prefilled to just below its first growth, Size/Get after every step and the full battery "
-            "(Size, IsEmpty, Get of every key and an absent one, All, layout dump, Equal against a rebuilt and a perturbed sibling) at the end; "
+            "(Size, IsEmpty, Get of every key and an absent one, All, layout dump, Equal in both directions against a rebuilt sibling, a perturbed one (changed value, missing key, extra key) and siblings of the same size with a different key set whose differing entries carry the zero value) at the end; key 0 and value 0 occur in every batch; "
             "adversarial: fill across the growth threshold with absent-key lookups, delete-and-revive every key, oscillation across "
             "grow/shrink thresholds, operations on empty tables, capacities next to squares of primes filled to the limit under one-class hashes, "
             "capacities the constructor must reject; on a fidelity disagreement about the table size m a directed search (same history under a constant hash, "
